@@ -201,7 +201,8 @@ def run_cases(chk, cases):
                     if all(e["msg"].startswith("generate:") for e in r["errors"]):
                         chk.extra["refused_by_backend"] = chk.extra.get("refused_by_backend", 0) + 1
                         continue
-                    raise ToolError(f"C09 program rejected: {r['errors']}\n{srcs[i]}")
+                    chk.refused(f"{lang}/{c['case']['kind']}", f"{lang}: C09 program rejected: {str(r['errors'])[:200]}", {"case": c["case"], "lang": lang, "site": "any"})
+                    continue
                 ss, defs = sites(lang, r["obs"], c["case"], prefix)
                 for site, ref, tk in ss:
                     if ref is None:
